@@ -72,3 +72,81 @@ pub fn sample_json(c: &Call, obs: &EncObs) -> crate::json::J {
     use crate::json::J;
     J::obj(vec![("call", J::s(c.describe())), ("observed", J::s(obs.brief()))])
 }
+
+/// Responder workload: the packets `process_packet` itself encodes. Forged requests (the answerable
+/// forms, unsupported commands, out-of-range operations / selectors; every instance ID) are processed
+/// on contexts with random valid configuration and state; `f(request, response, responder)` is
+/// called for every response produced. Split over shards like the encoder plans.
+pub fn for_each_response(cfg: &crate::RunCfg, label: &str, n: u64, f: &mut dyn FnMut(&[u8], &[u8], &crate::libapi::CtxCfg, &mut Report), rep: &mut Report) {
+    use crate::libapi::*;
+    use crate::refmodel::forge::ctrl_request;
+    let mut rng = cfg.rng(label);
+    let ns = cfg.nshards as u64;
+    let per = (cfg.n(n) / ns).max(8);
+    let mut rb = vec![0u8; 320];
+    for k in 0..per {
+        let mut c = CtxCfg::random(&mut rng, true);
+        if k % 8 == 0 {
+            c.addr = (k / 8 % 128) as u8;
+        }
+        let nsets = c.vendors.len() as u64;
+        with_ctx(&c, |ctx| {
+            // some state first
+            if rng.chance(1, 2) {
+                let p = ctrl_request(c.addr, rng.byte() & 0x7F, rng.byte() & 0x1F, false, 0x01, &[rng.below(2) as u8, rng.range(1, 0xFE) as u8]);
+                let _ = process(ctx, &p, &mut rb);
+            }
+            for j in 0..6u64 {
+                let src = if j == 0 { (k % 128) as u8 } else { rng.byte() & 0x7F };
+                let iid = ((k + j) % 32) as u8;
+                let req = match rng.below(14) {
+                    0 => ctrl_request(c.addr, src, iid, false, 0x01, &[rng.below(2) as u8, rng.range(1, 0xFE) as u8]),
+                    1 => ctrl_request(c.addr, src, iid, false, 0x01, &[3, rng.byte()]),
+                    2 => ctrl_request(c.addr, src, iid, false, 0x01, &[rng.range(2, 255) as u8, rng.byte()]),
+                    3 => ctrl_request(c.addr, src, iid, false, 0x02, &[]),
+                    4 => ctrl_request(c.addr, src, iid, false, 0x03, &[]),
+                    5 => ctrl_request(c.addr, src, iid, false, 0x04, &[rng.byte()]),
+                    6 => ctrl_request(c.addr, src, iid, false, 0x05, &[]),
+                    7 | 8 => ctrl_request(c.addr, src, iid, false, 0x06, &[rng.below(nsets) as u8]),
+                    9 => ctrl_request(c.addr, src, iid, false, 0x06, &[rng.range(nsets, 255) as u8]),
+                    10 => ctrl_request(c.addr, src, iid, false, 0x00, &[]),
+                    11 => ctrl_request(c.addr, src, iid, false, 0x07, &[rng.byte()]),
+                    12 => ctrl_request(c.addr, src, iid, false, 0x08, &[rng.byte(), rng.byte(), rng.byte()]),
+                    _ => {
+                        let cmd = rng.range(0x09, 0xFF) as u8;
+                        let kk = rng.below(5) as usize;
+                        let d = rng.bytes(kk);
+                        ctrl_request(c.addr, src, iid, false, cmd, &d)
+                    }
+                };
+                rng.fill(&mut rb);
+                if let ProcOut::Ok { resp: Some(l), .. } = process(ctx, &req, &mut rb) {
+                    if l <= rb.len() && l >= 10 {
+                        let resp = rb[..l].to_vec();
+                        f(&req, &resp, &c, rep);
+                    } else {
+                        rep.class("responder:reported-length-not-a-packet");
+                    }
+                }
+            }
+        });
+    }
+}
+
+/// Replay helper for responder cases "cfg|request-hex" (fresh context, request processed once).
+pub fn replay_response(rest: &str, rep: &mut Report, f: &mut dyn FnMut(&[u8], &[u8], &crate::libapi::CtxCfg, &mut Report)) -> Result<(), String> {
+    use crate::libapi::*;
+    let (c, q) = rest.split_once('|').ok_or("bad responder case")?;
+    let cfgc = CtxCfg::decode(c).ok_or("bad cfg")?;
+    let req = crate::json::unhex(q).ok_or("bad hex")?;
+    let mut rb = vec![0x5Au8; 320];
+    with_ctx(&cfgc, |ctx| {
+        if let ProcOut::Ok { resp: Some(l), .. } = process(ctx, &req, &mut rb) {
+            if l <= rb.len() && l >= 10 {
+                let resp = rb[..l].to_vec();
+                f(&req, &resp, &cfgc, rep);
+            }
+        }
+    });
+    Ok(())
+}
